@@ -144,7 +144,23 @@ def translate_gen():
     m = re.search(r"if is_int:\n(.*?)\n\s+else:\n", text, re.S)
     if not m:
         raise Untranslatable("_generate_cpy_const: is_int branch")
-    lines = [l.strip() for l in m.group(1).split("\n")]
+    lines = [l.strip() for l in m.group(1).split("\n") if not l.strip().startswith("#")]
+    # optional guard: if not (-(1 << A) < check_value < (1 << B)): raise VerificationError(<message>)
+    domain = None
+    for i, l in enumerate(lines):
+        mg = re.fullmatch(r"if not \(-\(1 << (\d+)\) < check_value < \(1 << (\d+)\)\):", l)
+        if mg:
+            j = i + 1
+            if not re.fullmatch(r"raise VerificationError\(", lines[j]):
+                raise Untranslatable("_generate_cpy_const: guard without raise VerificationError")
+            j += 1
+            while j < len(lines) and re.match(r"^[\"']", lines[j]):
+                j += 1
+            if not re.fullmatch(r"check_value\)\)", lines[j]):
+                raise Untranslatable("_generate_cpy_const: unexpected end of the guard: %r" % lines[j])
+            domain = (int(mg.group(1)), int(mg.group(2)))
+            lines = lines[:i] + lines[j + 1:]
+            break
     expect = [
         r"prnt\('static int %s\(unsigned long long \*o\)' % funcname\)",
         r"prnt\('\{'\)",
@@ -211,7 +227,7 @@ def translate_gen():
      /repo/src/c/_cffi_backend.c    (SF_PACKED, SF_STD_FIELD_POS)
      /repo/src/c/realize_c_type.c   (flag passed to the per-field size check)
    Do not edit: this committed copy is the snapshot used when the translator fails. *)
-From Coq Require Import ZArith.
+From Coq Require Import ZArith Bool.
 From Cffi Require Import C12.Spec.
 Local Open Scope Z_scope.
 """)
@@ -223,6 +239,13 @@ Local Open Scope Z_scope.
     out.append("Definition gen_const_o : cexpr :=\n  %s.\n" % o_expr)
     out.append("(* recompiler.py: if check_value > 0: check_value = '%dU' % (check_value,) *)")
     out.append("Definition gen_check_suffixU (check_value : Z) : bool := Z.gtb check_value 0.\n")
+    if domain:
+        out.append("(* recompiler.py: if not (-(1 << %d) < check_value < (1 << %d)): raise VerificationError(...) *)" % domain)
+        out.append("Definition gen_check_in_domain (check_value : Z) : bool :=\n"
+                   "  Z.ltb (- (Z.shiftl 1 %d)) check_value && Z.ltb check_value (Z.shiftl 1 %d).\n" % domain)
+    else:
+        out.append("(* recompiler.py: no range guard on check_value *)")
+        out.append("Definition gen_check_in_domain (check_value : Z) : bool := true.\n")
     out.append("(* recompiler.py: if (!_cffi_check_int( *o, n, <literal>)) n |= %s; *)" % g["bits"])
     out.append("Definition gen_check_fail_bits : Z := %s.\n" % g["bits"])
     out.append("(* which declarations pass a check_value to _generate_cpy_const *)")
@@ -306,8 +329,7 @@ def gen_const(rng, name, for_verify=False):
     elif r < 0.20:
         k["cdef"] = None
     elif r < 0.60:
-        k["beyond"] = rng.random() < 0.06
-        k["cdef"] = mutate_value(rng, cval, k["beyond"])
+        k["cdef"] = mutate_value(rng, cval, False)
     return k
 
 
@@ -493,10 +515,21 @@ def gen_category_module(rng, idx):
     return m
 
 
+def gen_beyond_module(rng, idx):
+    """one checked constant whose cdef value is outside (-2^64, 2^64): not a C literal"""
+    m = gen_module(rng, idx, (1, 0, 0, 0, 0, 0))
+    k = m["consts"][0]
+    k["decl"], k["beyond"] = "macro", True
+    k["cdef"] = mutate_value(rng, k["cval"], True)
+    m["beyond_mod"] = True
+    return m
+
+
 def generate(ctx):
     n = ctx.n(12, 400)
     cases = [gen_module(ctx.rng, i, (16, 4, 14, 3, 3, 2)) for i in range(n)]
     cases += [gen_category_module(ctx.rng, n + i) for i in range(ctx.n(3, 40))]
+    cases += [gen_beyond_module(ctx.rng, n + 100 + i) for i in range(ctx.n(2, 30))]
     return cases
 
 
@@ -595,9 +628,15 @@ def evaluate(ctx, cases):
             else:
                 ctx.violation(m, "building/probing the module ends the Python process: " + r["crash"])
             continue
-        if "build_error" in r and r["build_error"] == "VerificationError" and any(const_key(k) for k in m["consts"]):
-            # a cdef constant that is not a C literal may also be refused when the module is built
-            ctx.count(len(m["consts"]))
+        if "build_error" in r and r["build_error"] == "VerificationError" and m.get("beyond_mod"):
+            # a cdef constant that is not a C literal is refused when the module is generated
+            k = m["consts"][0]
+            ctx.count()
+            ctx.hist("const", "beyond/refused-at-build")
+            ctx.nontrivial(("const", k["cval"], k["cdef"]))
+            constcases.append(("(KMacro, %s, %s, Some %s)" % (promoted_type(k), cz(k["cval"]), cz(k["cdef"])),
+                               "Some (Err BuildError)"))
+            constowner.append(m)
             continue
         if "build_error" in r and r["build_error"] == "VerificationError" and m.get("ctmut"):
             ctx.count()             # the C compiler refused the mismatching field type
@@ -637,7 +676,7 @@ def evaluate(ctx, cases):
                 if "ok" in g:
                     ctx.violation(case, "constant %s: C value %d but cdef says %d; lib.%s silently gives %r"
                                   % (k["name"], c, e, k["name"], g["ok"]), const_key(k))
-            if const_key(k) is None:
+            if True:
                 lit = res_literal(g)
                 if lit is None:
                     ctx.mismatch(case, "constant %s: implementation outcome %r not in the model's range" % (k["name"], g),
